@@ -192,6 +192,7 @@ class World(object):
         def ok(v, h=h):
             self.dfr[h][1] = "ok"
             self.fx.append({"k": "fire", "d": h, "ok": 1, "val": enc_val(v)})
+            return "result-of-the-application-callback"     # applications are free to return something: the Deferred is theirs
 
         def ko(f, h=h):
             self.dfr[h][1] = "fail"
